@@ -18,6 +18,17 @@
  *   QFAULT_LOG  = file that receives one line per tracked call:
  *                 "<R|W|O> <tok> <asked> <result>"
  *
+ *   QFAULT_SCHED = "n=<threads>;s=<i>,<i>,.."   (optional) thread scheduler:
+ *       the program registers n worker threads (qfault_thread_begin(i) /
+ *       qfault_thread_end(i), looked up with dlsym).  From then on exactly ONE
+ *       registered thread runs at any time; a thread gives the processor up at
+ *       every tracked call (open / read / write / close / rename / unlink on a
+ *       tracked path or descriptor), and the next thread to run is the
+ *       (s[k] mod #waiting)-th waiting one, k counting scheduling decisions
+ *       (an exhausted list means "the lowest index").  So the interleaving of
+ *       the workers - including everything they do in memory between two
+ *       calls - is a function of the list.
+ *
  * The shim is deterministic: it has no randomness and no clock; the schedule
  * of faults is a pure function of the plan and of the program's own sequence
  * of system calls.
@@ -34,6 +45,7 @@
 #include <sys/types.h>
 #include <sys/uio.h>
 #include <unistd.h>
+#include <pthread.h>
 
 #define MAXFD 4096
 #define MAXTOK 256
@@ -54,6 +66,67 @@ static int log_fd = -1;
 static int ready;
 
 static ssize_t raw_write(int fd, const void *b, size_t n) { return syscall(SYS_write, fd, b, n); }
+
+/* ---- thread scheduler ------------------------------------------------------------------- */
+#define MAXTHR 8
+#define MAXPICK 4096
+static int sched_n;                 /* 0: scheduler off */
+static int picks[MAXPICK], n_picks, pick_pos;
+static int tstate[MAXTHR];          /* 0 not yet registered, 1 running, 2 waiting, 3 finished */
+static int registered;
+static int turn = -1;
+static pthread_mutex_t smu = PTHREAD_MUTEX_INITIALIZER;
+static pthread_cond_t scv = PTHREAD_COND_INITIALIZER;
+static __thread int my_idx = -1;
+
+/* with smu held: if nobody runs and all registered threads have arrived, choose the next one */
+static void sched_decide(void) {
+    if (registered < sched_n) return;
+    for (int i = 0; i < sched_n; i++)
+        if (tstate[i] == 1) return;
+    int waiting[MAXTHR], w = 0;
+    for (int i = 0; i < sched_n; i++)
+        if (tstate[i] == 2) waiting[w++] = i;
+    if (w == 0) return;
+    int k = 0;
+    if (pick_pos < n_picks) k = picks[pick_pos] % w;
+    pick_pos++;
+    turn = waiting[k];
+    tstate[turn] = 1;
+    pthread_cond_broadcast(&scv);
+}
+
+/* give the processor up and wait to be chosen again */
+static void sched_point(void) {
+    if (!sched_n || my_idx < 0) return;
+    pthread_mutex_lock(&smu);
+    tstate[my_idx] = 2;
+    if (turn == my_idx) turn = -1;
+    sched_decide();
+    while (turn != my_idx) pthread_cond_wait(&scv, &smu);
+    pthread_mutex_unlock(&smu);
+}
+
+void qfault_thread_begin(int idx) {
+    if (!sched_n || idx < 0 || idx >= sched_n) return;
+    my_idx = idx;
+    pthread_mutex_lock(&smu);
+    tstate[idx] = 2;
+    registered++;
+    sched_decide();
+    while (turn != my_idx) pthread_cond_wait(&scv, &smu);
+    pthread_mutex_unlock(&smu);
+}
+
+void qfault_thread_end(int idx) {
+    if (!sched_n || idx != my_idx) return;
+    pthread_mutex_lock(&smu);
+    tstate[idx] = 3;
+    if (turn == idx) turn = -1;
+    my_idx = -1;
+    sched_decide();
+    pthread_mutex_unlock(&smu);
+}
 
 static void parse_stream(const char *s, const char *end, tok_t *out, int *n) {
     *n = 0;
@@ -96,6 +169,20 @@ __attribute__((constructor)) static void qfault_init(void) {
             s = *e ? e + 1 : e;
         }
     }
+    const char *sc = getenv("QFAULT_SCHED");
+    if (sc && sc[0] == 'n' && sc[1] == '=') {
+        sched_n = atoi(sc + 2);
+        if (sched_n < 0 || sched_n > MAXTHR) sched_n = 0;
+        const char *q = strstr(sc, "s=");
+        if (q) {
+            q += 2;
+            while (*q && n_picks < MAXPICK) {
+                picks[n_picks++] = atoi(q);
+                while (*q && *q != ',') q++;
+                if (*q) q++;
+            }
+        }
+    }
     if (lg && *lg) log_fd = (int)syscall(SYS_openat, AT_FDCWD, lg, O_WRONLY | O_CREAT | O_APPEND | O_CLOEXEC, 0644);
     ready = 1;
 }
@@ -110,7 +197,8 @@ static tok_t next_tok(tok_t *plan, int n, int *pos) {
 static void logline(char op, tok_t t, long asked, long result) {
     if (log_fd < 0) return;
     char buf[96];
-    int n = snprintf(buf, sizeof buf, "%c %c%ld %ld %ld\n", op, t.kind, t.arg, asked, result);
+    int n = my_idx >= 0 ? snprintf(buf, sizeof buf, "%c %c%ld %ld %ld T%d\n", op, t.kind, t.arg, asked, result, my_idx)
+                        : snprintf(buf, sizeof buf, "%c %c%ld %ld %ld\n", op, t.kind, t.arg, asked, result);
     if (n > 0) raw_write(log_fd, buf, (size_t)n);
 }
 
@@ -120,6 +208,7 @@ static int is_tracked_path(const char *path) {
 
 static int do_open(int dfd, const char *path, int flags, mode_t mode) {
     if (is_tracked_path(path)) {
+        sched_point();
         tok_t t = next_tok(plan_o, n_o, &pos_o);
         if (t.kind == 'i' || t.kind == 'e') {
             int en = t.kind == 'i' ? EINTR : (int)t.arg;
@@ -155,6 +244,7 @@ int creat(const char *path, mode_t mode) { return do_open(AT_FDCWD, path, O_CREA
 int creat64(const char *path, mode_t mode) { return do_open(AT_FDCWD, path, O_CREAT | O_WRONLY | O_TRUNC, mode); }
 
 int close(int fd) {
+    if (fd >= 0 && fd < MAXFD && tracked[fd]) sched_point();
     if (fd >= 0 && fd < MAXFD && !(fd == 1 && track_stdout)) tracked[fd] = 0;
     return (int)syscall(SYS_close, fd);
 }
@@ -163,6 +253,7 @@ static int fd_tracked(int fd) { return ready && fd >= 0 && fd < MAXFD && tracked
 
 ssize_t read(int fd, void *buf, size_t count) {
     if (fd_tracked(fd) && count > 0) {
+        sched_point();
         tok_t t = next_tok(plan_r, n_r, &pos_r);
         if (t.kind == 'i' || t.kind == 'e') {
             int en = t.kind == 'i' ? EINTR : (int)t.arg;
@@ -181,6 +272,7 @@ ssize_t read(int fd, void *buf, size_t count) {
 
 ssize_t write(int fd, const void *buf, size_t count) {
     if (fd_tracked(fd) && count > 0) {
+        sched_point();
         tok_t t = next_tok(plan_w, n_w, &pos_w);
         if (t.kind == 'i' || t.kind == 'e') {
             int en = t.kind == 'i' ? EINTR : (int)t.arg;
@@ -254,3 +346,37 @@ ssize_t pwrite(int fd, const void *buf, size_t count, off_t off) {
     return syscall(SYS_pwrite64, fd, buf, count, off);
 }
 ssize_t pwrite64(int fd, const void *buf, size_t count, off_t off) { return pwrite(fd, buf, count, off); }
+
+/* path operations on tracked paths: scheduling points (and logged), never faulted */
+int rename(const char *a, const char *b) {
+    if (is_tracked_path(a) || is_tracked_path(b)) {
+        sched_point();
+        int r = (int)syscall(SYS_renameat2, AT_FDCWD, a, AT_FDCWD, b, 0);
+        tok_t k = {'k', 0};
+        logline('N', k, 0, r);
+        return r;
+    }
+    return (int)syscall(SYS_renameat2, AT_FDCWD, a, AT_FDCWD, b, 0);
+}
+int renameat(int da, const char *a, int db, const char *b) {
+    if (is_tracked_path(a) || is_tracked_path(b)) sched_point();
+    return (int)syscall(SYS_renameat2, da, a, db, b, 0);
+}
+int renameat2(int da, const char *a, int db, const char *b, unsigned int fl) {
+    if (is_tracked_path(a) || is_tracked_path(b)) sched_point();
+    return (int)syscall(SYS_renameat2, da, a, db, b, fl);
+}
+int unlink(const char *a) {
+    if (is_tracked_path(a)) {
+        sched_point();
+        int r = (int)syscall(SYS_unlinkat, AT_FDCWD, a, 0);
+        tok_t k = {'k', 0};
+        logline('U', k, 0, r);
+        return r;
+    }
+    return (int)syscall(SYS_unlinkat, AT_FDCWD, a, 0);
+}
+int unlinkat(int d, const char *a, int fl) {
+    if (is_tracked_path(a)) sched_point();
+    return (int)syscall(SYS_unlinkat, d, a, fl);
+}
